@@ -1263,7 +1263,7 @@ static int sp_dgemm(char tA, char tB, number alpha, void *a, void *b,
 
   if (sp_a && sp_b && sp_c && partial) {
 
-    ccs *A = (tA == 'T' ? a : transpose(a, 0));
+    ccs *A = (tA == 'N' ? transpose(a, 0) : a);
     ccs *B = (tB == 'N' ? b : transpose(b, 0));
     ccs *C = c;
     int j, l;
